@@ -138,7 +138,7 @@ namespace {
     const M3 El = fs::halfLog(s.C);
     R emax = 0;
     for (auto x : s.sC.vp) emax = std::max(emax, std::fabs(std::log(x)) / 2);
-    const R tol = 256 * u * s.kC * (1 + emax);
+    const R tol = 1024 * u * s.kC * (1 + emax);
     const std::string key = "C24.hencky." + s.cls;
     const Stensor e = h.getHenckyLogarithmicStrain();
     cmpS(c, e, El, tol, key, std::string("E_log = 1/2 log C, ") + s.sname);
@@ -223,7 +223,7 @@ namespace {
       Stensor S2;
       S2.importTab(tab);
       for (int k = 0; k < nS; ++k)
-        c.close(S2[k], S[k], 64 * u * ref::maxabs(gen::stensorToM3(S)) + 1e-300L, "C24.pointer.pk2",
+        c.close(S2[k], S[k], 512 * u * ref::maxabs(gen::stensorToM3(S)) + 1e-300L, "C24.pointer.pk2",
                 "pointer overload of convertToSecondPiolaKirchhoffStress");
       h.convertFromSecondPiolaKirchhoffStress(tab);
       Stensor T3;
@@ -255,7 +255,7 @@ namespace {
       Stensor s2;
       s2.importTab(tab);
       for (int k = 0; k < nS; ++k)
-        c.close(s2[k], sig[k], 64 * u * ref::maxabs(gen::stensorToM3(sig)) + 1e-300L,
+        c.close(s2[k], sig[k], 512 * u * ref::maxabs(gen::stensorToM3(sig)) + 1e-300L,
                 "C24.pointer.cauchy", "pointer overload of convertToCauchyStress");
       h.convertFromCauchyStress(tab);
       Stensor T5;
